@@ -284,7 +284,9 @@ func (s *Subscriber) GetLatestSync(peerID peer.ID) ipld.Link {
 	if s.lastKnownSync != nil {
 		c, ok = s.lastKnownSync(peerID)
 		if ok && c != cid.Undef {
-			s.latestSyncHandler.setLatestSync(peerID, c)
+			// A sync may have recorded a newer latest sync while the
+			// function was asked; that one must not be overwritten.
+			c = s.latestSyncHandler.setLatestSyncIfAbsent(peerID, c)
 			return cidlink.Link{Cid: c}
 		}
 	}
